@@ -21,6 +21,39 @@ CHECKS = {
         'Trusted: the 40-line ledger in checks/c04_flow_control.py; completions are clamped per connection.',
         'DESIGN.md 3/C04',
     ),
+    'C01': (
+        'round-trip + independent wire model over the run-time class registry (Hypothesis field values)',
+        'exploration',
+        'Every class registered in the HCI command/event/LE sub-event registries, every sync command\'s '
+        'return-parameter class (inside Command Complete, success and error status), ACL/SCO/ISO data packets, '
+        'vendor events and unregistered codes: fields->bytes must equal a harness-side reference encoding, '
+        'bytes->fields must equal the generated values, and a fresh object rebuilt from the parsed fields must '
+        're-serialise to the same bytes (cache defeated). Registry enumerated, values sampled with boundary bias.',
+        'Trusted: vlib/specgen.py reference encoder (int.to_bytes based) and its classification of field specs; '
+        'opaque parser/serializer pairs are only checked for consistency.',
+        'DESIGN.md 3/C01',
+    ),
+    'C02': (
+        'differential framing: generated packet list as reference, exhaustive split points for short streams',
+        'exploration',
+        'Packet sequences of every HCI type (zero/max lengths) cut at every single and double split point '
+        '(short streams, enumerated) and at generated cut lists, through PacketParser, PacketReader, '
+        'AsyncPacketReader, the USB splitters and the tcp/unix/ws server transports driven through their '
+        'protocol objects (client hand-over at every byte position); per-chunk none-early/none-late, bad type '
+        'byte recovery, all framers agree with the reference list.',
+        'Trusted: the harness packet generator/header table; real sockets and libusb threads are not driven.',
+        'DESIGN.md 3/C02',
+    ),
+    'C14': (
+        'differential (two back ends) + specification vectors + algebraic relations',
+        'exploration',
+        'AES-128 e, AES-CMAC (every length 0..80 and 255/256/257/1024), c1 s1 f4 f5 f6 g2 h6 h7 ah, P-256 public '
+        'key derivation and ECDH on generated inputs through the library back end and through a second load of '
+        'bumble.crypto forced onto the built-in back end; published vectors on both; ECDH symmetry across back '
+        'ends; 13 kinds of off-curve keys must be rejected by both; RPA generate/resolve under own and unrelated IRK.',
+        'Trusted: the published test vectors transcribed in the check; 256-bit domains are sampled.',
+        'DESIGN.md 3/C14',
+    ),
 }
 
 NOT_YET = 'check not built yet in this session (planned in DESIGN.md section 3)'
